@@ -284,7 +284,13 @@ func (e *Engine) verifyFuncMode(fn *ssa.Function, cfg SolverCfg, mode string) *F
 	}
 	// vacuity: preconditions satisfiable
 	res.PreSat = e.checkPreSat(vc, cfg, base)
-	res.Vacuous = e.checkReach(vc, cfg, base)
+	proved := map[*Obligation]bool{}
+	for _, o := range res.Obs {
+		if o.Status == "unsat" || o.Status == "folded" {
+			proved[o.Ob] = true
+		}
+	}
+	res.Vacuous = e.checkReach(vc, cfg, base, proved)
 	res.Seconds = time.Since(t0).Seconds()
 	if os.Getenv("GOVC_KEEP") == "" {
 		os.Remove(file)
@@ -322,7 +328,7 @@ func (e *Engine) checkPreSat(vc *VC, cfg SolverCfg, base string) string {
 // invariant must be reachable, i.e. its path condition must be satisfiable together with everything assumed before
 // it, and at least one return must be reachable. A contradictory set of hypotheses otherwise "proves" everything
 // after it. Only a definite `unsat` counts; sat/unknown/timeouts pass.
-func (e *Engine) checkReach(vc *VC, cfg SolverCfg, base string) []string {
+func (e *Engine) checkReach(vc *VC, cfg SolverCfg, base string, proved map[*Obligation]bool) []string {
 	var b strings.Builder
 	for _, ax := range vc.e.axioms {
 		b.WriteString("(assert " + ax + ")\n")
@@ -372,7 +378,9 @@ func (e *Engine) checkReach(vc *VC, cfg SolverCfg, base string) []string {
 		if (strings.HasPrefix(k, "callsite") || strings.HasPrefix(k, "assert") || strings.HasPrefix(k, "inv-")) && !ob.Skip {
 			ask(ob.PC, ob.Name, false)
 		}
-		if ob.Term != "true" {
+		if ob.Term != "true" && (proved[ob] || ob.Skip) {
+			// only what has been discharged (or is outside this unit's claim) is assumed: an obligation that failed
+			// is reported as such, and must not in addition make what follows look unreachable
 			b.WriteString("(assert " + ob.Term + ")\n")
 		}
 	}
